@@ -23,7 +23,7 @@ def dec_c10(fdp):
     cls = m.CLASSES[fdp.ConsumeIntInRange(0, len(m.CLASSES) - 1)]
     sk = fdp.ConsumeIntInRange(0, 3)
     start = [["alloc", fdp.ConsumeIntInRange(0, 4)], ["list", fdp.ConsumeIntInRange(1, 4)], ["empty", 0], ["default", 1]][sk]
-    names = ["get", "slice", "iter", "append", "extend", "insert", "pop", "del", "set", "reverse", "clear", "ctor_list", "copy",
+    names = ["nested_iter", "get", "slice", "iter", "append", "extend", "insert", "pop", "del", "set", "reverse", "clear", "ctor_list", "copy",
              "append_other", "append_multi", "extend_other", "append_array", "insert_other", "insert_multi", "set_other", "set_multi",
              "ctor_list_other", "ctor_list_other_first", "append_empty", "insert_empty", "set_empty", "ctor_list_multi", "ctor_list_empty_elem"]
     ops = []
